@@ -40,6 +40,12 @@ impl Vm {
                         self.ip,
                         self.acc.clone(),
                     ));
+                    // Abandon the failed evaluation: the frames it left behind must not
+                    // show up in (or be kept alive by) later evaluations.
+                    self.stack.clear();
+                    *self.stack.get_sp_mut() = 0;
+                    self.bp = 0;
+                    self.ep = usize::MAX;
                     return Err(e);
                 }
             }
